@@ -20,7 +20,7 @@ def tasks(tier):
     W, M = "contracts.wf", "contracts.ms"
     t = []
     sd = [("rhf", 2, 1, 1, True), ("rhf", 3, 1, 1, True), ("rhf", 3, 1, 1, False), ("uhf", 2, 1, 1, False), ("uhf", 2, 1, 0, False),
-          ("uhf", 3, 2, 1, False), ("ghf", 2, 1, 1, False), ("ghf", 3, 2, 1, False), ("noci", 2, 1, 0, False), ("noci", 3, 2, 1, False),
+          ("uhf", 3, 2, 1, False), ("uhf", 3, 2, 2, False), ("ghf", 3, 2, 2, False), ("noci", 3, 2, 2, False), ("ghf", 2, 1, 1, False), ("ghf", 3, 2, 1, False), ("noci", 2, 1, 0, False), ("noci", 3, 2, 1, False),
           ("cisd", 3, 1, 1, True), ("cisd", 4, 2, 2, True), ("cisd_faster", 3, 1, 1, True), ("CISD", 3, 1, 1, True), ("CISD", 4, 2, 2, True),
           ("CISD_THC", 3, 1, 1, True), ("CISD_THC", 4, 2, 2, True), ("UCISD", 3, 2, 1, False), ("UCISD", 3, 1, 1, False),
           ("ucisd", 3, 2, 1, False), ("ucisd", 3, 1, 1, False), ("ucisd", 3, 2, 0, False), ("GCISD", 2, 1, 1, False), ("GCISD", 3, 2, 1, False)]
